@@ -302,7 +302,8 @@ else:
             kwargs = {}
 
             for field in attrs.fields(type(value)):
-                if field.repr:
+                # a field with init=False is no argument of the constructor
+                if field.repr and field.init:
                     field_value = getattr(value, field.name)
                     is_default = False
 
@@ -322,7 +323,9 @@ else:
 
                             is_default = True
 
-                    kwargs[field.name] = Argument(
+                    # the name of the argument of __init__ (private attributes
+                    # lose their leading underscore)
+                    kwargs[getattr(field, "alias", None) or field.name] = Argument(
                         value=field_value, is_default=is_default
                     )
 
@@ -333,6 +336,12 @@ else:
                 # positional argument in the source code
                 args = [field for field in attrs.fields(type(value)) if field.init]
                 pos_or_name = args[pos_or_name].name
+            else:
+                # keyword argument: map the name of the argument to the attribute
+                for field in attrs.fields(type(value)):
+                    if (getattr(field, "alias", None) or field.name) == pos_or_name:
+                        pos_or_name = field.name
+                        break
             return getattr(value, pos_or_name)
 
 
